@@ -73,6 +73,8 @@ func (p *c11Proj) render() map[string]string {
 	// a wildcard task called concurrently from one for-dep with template-free vars: each call has its own MATCH
 	root.WriteString("  'w-*':\n    vars:\n      M: '{{index .MATCH 0}}'\n    cmds:\n      - cmd: " + yamlq(`printf 'OBS wild x=%s mode=%s\n' '{{.M}}' '{{.MODE}}' >> "$VERIF_TRACE"`) + "\n")
 	root.WriteString("  ctx-wild:\n    deps:\n      - for: [a, b, c, d, e, f, g, h]\n        task: 'w-{{.ITEM}}'\n        vars: {MODE: release}\n")
+	// the same concrete wildcard name again later in the invocation, this time with call variables
+	root.WriteString("  ctx-wild-again:\n    cmds:\n      - task: w-a\n      - task: w-a\n        vars: {MODE: release}\n      - for: [k, k]\n        task: w-a\n        vars: {MODE: 'loop-{{.ITEM}}'}\n      - task: w-b\n        vars: {MODE: debug}\n")
 	root.WriteString("  ctx-wild-seq:\n    cmds:\n      - for: [a, b, c]\n        task: 'w-{{.ITEM}}'\n        vars: {MODE: release}\n")
 	// a dotenv file rewritten by one task between two runs of another: the file system at the time of the run counts
 	root.WriteString("  dotshow:\n    dotenv: ['dyn.env']\n    cmds:\n      - cmd: " + yamlq(`printf 'OBS dotshow x=%s\n' "$DV" >> "$VERIF_TRACE"`) + "\n")
@@ -275,6 +277,8 @@ func runC11(id string, start time.Time) int {
 		}{
 			{"wildcard-calls-from-one-for-dep", []string{"ctx-wild"}, []string{"OBS wild x=a mode=release", "OBS wild x=b mode=release", "OBS wild x=c mode=release", "OBS wild x=d mode=release", "OBS wild x=e mode=release", "OBS wild x=f mode=release", "OBS wild x=g mode=release", "OBS wild x=h mode=release"}},
 			{"wildcard-calls-sequential", []string{"ctx-wild-seq"}, []string{"OBS wild x=a mode=release", "OBS wild x=b mode=release", "OBS wild x=c mode=release"}},
+			{"wildcard-name-again-with-vars", []string{"ctx-wild-again"}, []string{"OBS wild x=a mode=", "OBS wild x=a mode=loop-k", "OBS wild x=a mode=loop-k", "OBS wild x=a mode=release", "OBS wild x=b mode=debug"}},
+			{"wildcard-name-again-with-vars-after-a-root-call", []string{"w-a", "w-b", "ctx-wild-again"}, []string{"OBS wild x=a mode=", "OBS wild x=a mode=", "OBS wild x=a mode=loop-k", "OBS wild x=a mode=loop-k", "OBS wild x=a mode=release", "OBS wild x=b mode=", "OBS wild x=b mode=debug"}},
 			{"dotenv-rewritten-between-two-runs", []string{"ctx-dotenv"}, []string{"OBS dotshow x=one", "OBS dotshow x=two"}},
 		}
 		for _, fc := range fixed {
